@@ -61,6 +61,10 @@ type ScnCfg struct {
 	Dup        []int          `json:"dup"`     // indexes of comps registered a second time (same instance)
 	Trace      bool           `json:"trace"`   // record the calls the factory makes on its singleton registry
 	Twice      bool           `json:"twice"`   // start a second App on the SAME component instances; both starts must look alike
+	// before the scenario, ANOTHER App is started in this process over instances of its own (same types, hence the same tag
+	// texts) plus an application-defined post-processor that rewrites the tag arguments of every property it is shown;
+	// nothing of it is observed and nothing of it may reach the scenario
+	Foreign bool `json:"foreign"`
 }
 
 type Event struct {
@@ -631,8 +635,63 @@ func guard(f func()) (p string) {
 }
 
 // RunScenario executes one scenario against the real container.
+// argRewriter: an application-defined post-processor that adjusts the tag arguments of the injection points it is
+// shown through the public API (Property.SetArg / AddArg, and the slices Args().ForEach hands out)
+type argRewriter struct{}
+
+func (*argRewriter) PostProcessBeforeInitialization(c any, name string) (any, error) { return c, nil }
+func (*argRewriter) PostProcessAfterInitialization(c any, name string) (any, error)  { return c, nil }
+func (*argRewriter) PostProcessBeforeInstantiation(m *component_definition.Meta, name string) (any, error) {
+	return nil, nil
+}
+func (*argRewriter) PostProcessAfterInstantiation(c any, name string) (bool, error) { return true, nil }
+func (*argRewriter) PostProcessProperties(ps []*component_definition.Property, c any, name string) ([]*component_definition.Property, error) {
+	if _, own := c.(*app.App); own {
+		return nil, nil
+	}
+	for _, p := range ps {
+		p.Args().ForEach(func(t component_definition.ArgType, args []string) {
+			for i := range args {
+				args[i] = "\x01rewritten"
+			}
+		})
+		p.SetArg(component_definition.ArgQualifier, "zz-foreign-region")
+		p.SetArg(component_definition.ArgRequired, "false")
+		p.AddArg("returns", "zz-foreign")
+	}
+	return nil, nil
+}
+
+// foreignStart: another application of the same process, started and forgotten before the scenario
+func foreignStart(cfg *ScnCfg) {
+	s2 := &Scn{Cfg: cfg, Origs: map[OKey]int{}, Proxies: map[uintptr][2]int{}, EarlyMade: map[[2]int]any{}}
+	var comps []any
+	for i := range cfg.Comps {
+		c := &cfg.Comps[i]
+		ctor, ok := Ctors[c.Ctor]
+		if !ok {
+			return
+		}
+		in := ctor(Base{C: c, S: s2})
+		s2.Origs[okey(reflect.ValueOf(in))] = c.Rank
+		comps = append(comps, in)
+	}
+	s2.Instances = comps
+	Current = s2
+	comps = append(comps, &argRewriter{})
+	guard(func() {
+		a := app.NewApp()
+		s2.App = a
+		_ = a.Run(app.LogLevel(syslog.LvPanic), app.SetConfigLoader(loader.NewRawLoader([]byte(cfg.Config))),
+			func(x *app.App) { guard(func() { app.SetComponents(comps...)(x) }) })
+	})
+}
+
 func RunScenario(cfg *ScnCfg) (res Result) {
 	res.ID = cfg.ID
+	if cfg.Foreign {
+		foreignStart(cfg)
+	}
 	s := &Scn{Cfg: cfg, Origs: map[OKey]int{}, Proxies: map[uintptr][2]int{}, EarlyMade: map[[2]int]any{}}
 	insts := make([]any, len(cfg.Comps))
 	for i := range cfg.Comps {
